@@ -393,6 +393,9 @@ def compile_job(src=None, style=None, syntax=None, files=None, entry=None, **opt
     if entry:
         j["entry"] = entry
     o = dict(opts)
+    for top in ("logger", "fs", "stack_mb"):       # job-level (not Options) fields
+        if top in o:
+            j[top] = o.pop(top)
     if style:
         o["style"] = style
     if syntax:
